@@ -718,22 +718,66 @@ def _guards(f):
     return out
 
 
+def _block_paths(f):
+    """stmt id -> tuple of (block id, index) from the function body down to the statement."""
+    out = {}
+
+    def walk(stmts, path):
+        for i, s in enumerate(stmts):
+            out[id(s)] = path + ((id(stmts), i),)
+            for b in sub_blocks(s):
+                walk(b, path + ((id(stmts), i),))
+    walk(f.body, ())
+    return out
+
+
 def _defs(f, nm, call_stmt, guards):
+    """Definitions of nm that may reach call_stmt: guard-compatible, not killed by a later definition that dominates
+    the call (a definition in the same block as the call, or in an enclosing block, placed before it)."""
     cg = guards.get(id(call_stmt), frozenset())
+    paths = _block_paths(f)
+    cpath = paths.get(id(call_stmt), ())
     defs = []
     for s in walk_stmts(f.body):
         if s.line is not None and call_stmt.line is not None and s.line >= call_stmt.line:
             continue
-        if s.k != 'assign':
-            continue
-        hit = s.target == ('var', nm) or (s.target[0] == 'tuple' and ('var', nm) in s.target[1])
+        hit = False
+        if s.k == 'assign':
+            hit = s.target == ('var', nm) or (s.target[0] == 'tuple' and ('var', nm) in s.target[1])
+        elif s.k == 'foreach':
+            hit = any(x == ('var', nm) for x in walk_expr(s.target))
         if not hit:
             continue
         dg = guards.get(id(s), frozenset())
         if any((n_, not p_) in cg for (n_, p_) in dg):
             continue        # the definition sits under a guard that contradicts the call's guard
         defs.append(s)
-    return defs
+    # kill: a def whose block is on the call's path (same block or ancestor) and that comes later than another def
+    def dominates(d):
+        dp = paths.get(id(d), ())
+        if not dp:
+            return False
+        blk, idx = dp[-1]
+        for (b, i) in cpath:
+            if b == blk and idx < i:
+                return True
+        return False
+    doms = [d for d in defs if d.k == 'assign' and dominates(d)]
+    if doms:
+        last = max(doms, key=lambda d: d.line or 0)
+        defs = [d for d in defs if (d.line or 0) >= (last.line or 0)]
+    return [d if d.k == 'assign' else S_foreach(d) for d in defs]
+
+
+class S_foreach:
+    """A loop target definition presented like an assignment (value = element of the iterable)."""
+
+    def __init__(self, loop):
+        self.k = 'assign'
+        self.line = loop.line
+        self.target = loop.target
+        self.value = ('idx', loop.iter, ('other', 'element'))
+        self.d = {}
 
 
 def _san(m, mod, f, v, call_stmt, guards, depth=0):
